@@ -2735,6 +2735,51 @@ for _p in ("C19", "C20"):
 
 # C03: what a caller sees for a bidirectional pin must not depend on which test of a .dig file was loaded
 _c03_base2 = PROPS["C03"]["cases"]
-PROPS["C03"]["cases"] = lambda seed, tier: _c03_base2(seed, tier) + [dict(c, id="c03-" + c["id"]) for c in _gen_dig.cases((seed ^ 0xC03) & 0xFFFFFF, 40 if tier == "quick" else 600, 0, 0)]
+def c03_dig_cases(seed, tier):
+    """documents with two or more tests of which only some use <pin>_out for a pin (it is bidirectional for ALL of them)"""
+    want = 25 if tier == "quick" else 300
+    out = []
+    for c in _gen_dig.cases((seed ^ 0xC03) & 0xFFFFFF, 30 * want, 0, 0):
+        desc = c.get("c16", {}).get("desc")
+        if "tree" not in c or c.get("no_model") or not desc:
+            continue
+        ins = set(it["label"] for it in desc["items"] if it["k"] == "pin" and it["elem"] in ("In", "Clock") and it["label"])
+        uses = []
+        for it in desc["items"]:
+            if it["k"] == "test":
+                first = next((l.split() for l in (it["source"] or "").split("\n") if l.split()), [])
+                uses.append(frozenset(n for n in first if n.endswith("_out") and n[:-4] in ins))
+        if len(uses) >= 2 and len(set(uses)) >= 2:
+            out.append(dict(c, id="c03-" + c["id"]))
+            if len(out) >= want:
+                break
+    return out
+
+
+PROPS["C03"]["cases"] = lambda seed, tier: _c03_base2(seed, tier) + c03_dig_cases(seed, tier)
 PROPS["C03"]["oracles"] = PROPS["C03"]["oracles"] + [_f16.c16_load_oracle]
 PROPS["C03"]["rule"] += "; plus .dig documents (several tests per file, only some of them using <pin>_out): load_test(i) = from_str(source i) bound to the FILE's signals"
+
+
+def c18_reset_in_loop_cases(seed, tier):
+    """resetRandom executed inside loop / repeat / while bodies, with outer bindings shadowed in the body and used after it:
+    a reset re-seeds the generator and leaves every frame as it is"""
+    cases = []
+    sigs = [{"name": "A", "typ": "I", "bits": 16, "default": "0"}, {"name": "Q", "typ": "O", "bits": 8, "default": "-"}]
+    shapes = [
+        ["let a = 5;", "loop(i,2)", "let a = a + 10;", "resetRandom;", "(a+i) X", "end loop", "(a) X"],
+        ["let a = 5;", "let b = 7;", "loop(i,2)", "loop(j,2)", "let b = j;", "resetRandom;", "(a+b+i) X", "end loop", "(b) X", "end loop", "(a+b) X"],
+        ["let a = 1;", "loop(i,3)", "resetRandom;", "end loop", "(a) X", "loop(k,1)", "(a+k) X", "end loop"],
+        ["let w = 0;", "let a = 3;", "loop(i,2)", "while(w < 2)", "let w = w + 1;", "resetRandom;", "(w+a) X", "end while", "let w = 0;", "end loop", "(w) X", "(a) X"],
+        ["let a = 2;", "loop(i,2)", "let a = random(5) + 10;", "resetRandom;", "let c = random(5);", "(a+c) X", "end loop", "(a) X"],
+        ["let n = 40;", "loop(i,2)", "resetRandom;", "repeat(2) (n+i) X", "end loop", "(n) X"],
+    ]
+    for k, sh in enumerate(shapes):
+        for cont in (0, 1):
+            cases.append({"id": "c18-resetloop-%d-%d" % (k, cont), "kind": "run", "src": "\n".join(["A Q"] + sh) + "\n", "sigs": sigs, "layout": [1], "table": [["1"]],
+                          "echo": 0, "wdefault": k % 2, "faults": [], "max": 60, "seed": 3 + k, "cont": cont})
+    return cases
+
+
+for _p in ("C18", "C01", "C17"):
+    _extend(_p, c18_reset_in_loop_cases, "plus resetRandom executed inside loop / repeat / while bodies with shadowed outer bindings")
